@@ -92,7 +92,7 @@ const (
 	eParse = 1
 )
 
-func resOk(v core.Sexp) core.Sexp  { return core.Ls(core.A(0), v) }
+func resOk(v core.Sexp) core.Sexp   { return core.Ls(core.A(0), v) }
 func resErr(class uint64) core.Sexp { return core.Ls(core.A(1), core.A(class)) }
 func resPanic() core.Sexp           { return core.Ls(core.A(2)) }
 
@@ -157,7 +157,11 @@ type rawSpec struct {
 	SdSize, CdType, CdSize, AuthSize, PckType, PckSize *uint32
 }
 
-func le16(v uint32) []byte { b := make([]byte, 2); binary.LittleEndian.PutUint16(b, uint16(v)); return b }
+func le16(v uint32) []byte {
+	b := make([]byte, 2)
+	binary.LittleEndian.PutUint16(b, uint16(v))
+	return b
+}
 func le32(v uint32) []byte { b := make([]byte, 4); binary.LittleEndian.PutUint32(b, v); return b }
 
 func (s rawSpec) bytes() []byte {
@@ -508,6 +512,33 @@ func msgCases(c *core.Ctx, emit func(class, desc string, q *pb.QuoteV4)) {
 	emit("msg-empty", "empty message", &pb.QuoteV4{})
 	for i := 0; i < c.Scale(10, 200); i++ {
 		emit("msg-valid", "parsed valid quote", mk())
+	}
+	// valid messages whose byte fields share memory: serialisation must not depend on (or disturb)
+	// what lies behind a field. Layouts as in the C16 check; random field order in one arena.
+	for i := 0; i < c.Scale(6, 60); i++ {
+		q := mk()
+		for _, l := range []string{"adjacent", "reversed", "aliased", "spare"} {
+			emit("msg-valid-shared-memory", "valid quote rebuilt with layout "+l, relayout(r, q, l))
+		}
+		// any two 64-byte fields as adjacent halves of one buffer, in both orders
+		sd := q.SignedData
+		qe := sd.CertificationData.QeReportCertificationData
+		pairs := [][2]*[]byte{{&sd.Signature, &qe.QeReportSignature}, {&qe.QeReportSignature, &sd.Signature}, {&sd.Signature, &sd.EcdsaAttestationKey},
+			{&sd.EcdsaAttestationKey, &qe.QeReportSignature}, {&qe.QeReport.ReportData, &sd.Signature}, {&q.TdQuoteBody.ReportData, &sd.EcdsaAttestationKey}}
+		for k, pr := range pairs {
+			m := proto.Clone(q).(*pb.QuoteV4)
+			msd := m.SignedData
+			mqe := msd.CertificationData.QeReportCertificationData
+			fields := map[*[]byte]*[]byte{&sd.Signature: &msd.Signature, &qe.QeReportSignature: &mqe.QeReportSignature, &sd.EcdsaAttestationKey: &msd.EcdsaAttestationKey,
+				&qe.QeReport.ReportData: &mqe.QeReport.ReportData, &q.TdQuoteBody.ReportData: &m.TdQuoteBody.ReportData}
+			a, b := fields[pr[0]], fields[pr[1]]
+			arena := make([]byte, 0, 256)
+			arena = append(arena, *a...)
+			arena = append(arena, *b...)
+			arena = arena[:256]
+			*a, *b = arena[0:64], arena[64:128]
+			emit("msg-valid-shared-memory", fmt.Sprintf("two 64-byte fields as adjacent halves of one buffer (pair %d)", k), m)
+		}
 	}
 	// sub-message nil
 	nils := []struct {
